@@ -7,7 +7,7 @@ rm -rf $D ${D}_build; mkdir -p $D
 git -C /repo archive HEAD | tar -x -C $D
 (cd $D && git init -q . && git apply --whitespace=nowarn "$PATCH")
 for p in "$@"; do
-  VERIF_REPO=$D VERIF_BUILD=${D}_build python3 /verif/tools/vcheck.py $p --tier ${TIER:-quick} 2>&1 | grep "VIOLATION\|tier=\|   [A-Za-z-]" | cut -c1-220
+  VERIF_REPO=$D VERIF_BUILD=${D}_build VERIF_OUT=${D}_build/out python3 /verif/tools/vcheck.py $p --tier ${TIER:-quick} 2>&1 | grep "VIOLATION\|tier=\|   [A-Za-z-]" | cut -c1-220
 done
 rm -rf $D ${D}_build
 # the generated fragments must describe /repo again
